@@ -13,6 +13,8 @@ pub use self::breaks::*;
 mod capacity;
 pub(crate) use self::capacity::MaxVehicleLoadTourState;
 pub use self::capacity::{CapacityFeatureBuilder, JobDemandDimension, VehicleCapacityDimension};
+#[cfg(reinterpretcat_vrp_verif)]
+pub use self::capacity::verif_capacity_caches;
 
 mod compatibility;
 pub use self::compatibility::{JobCompatibilityDimension, create_compatibility_feature};
